@@ -584,6 +584,44 @@ HAND_CDOCS = ['01', '20', '63616263', '43010203', 'f93e00', 'f5', 'f6', 'f7', '8
 HAND_CSV = ['1,2\n3,4\n', 'a,b\n1,2\n', '"::",9223372036854775807\n', '', '\n\n', '"unterminated', 'a,"b""c",\n', '1e999,-0,0x10\n', ',,,\n', '\u00e9,\ud7ff\n']
 
 
+HUGE = [2 ** 32 - 1, 2 ** 32, 10 ** 13, 2 ** 63, 2 ** 64 - 1]
+# entries that can match without consuming an element (rules they need are appended)
+ZERO_WIDTH = [("()", ""), ("(? tstr, ? bool)", ""), ("zg", "zg = (? tstr)\n"), ("zh", "zh = (? tstr, * bool)\n"), ("(())", ""), ("((? tstr))", ""),
+              ("(* ())", ""), ("(? ())", ""), ("ze", "ze = ()\n"), ("(zi)", "zi = (* zj)\nzj = (? bool)\n"), ("(? tstr // ? bool)", ""), ("(* tstr)", "")]
+
+
+def gen_bounded_zero_width(rng, tier):
+    """occurrence bounds n*m written in the schema must not drive the number of steps: huge upper bounds (and huge
+    lower bounds, which simply fail) on entries that can match zero-width, in arrays and in map groups, short documents."""
+    occs = []
+    for m in HUGE:
+        occs += ["0*%d" % m, "*%d" % m, "1*%d" % m, "2*%d" % m, "%d*%d" % (m, m), "%d*" % m, "%d*%d" % (m - 1, m)]
+    out = []
+    ctxs = [("[%s, int]", "arr"), ("[%s]", "arr"), ("[int, %s]", "arr"), ("[tstr, %s, int]", "arr"), ("[* (%s), int]", "arr"), ("[? int, %s]", "arr"),
+            ("{ %s, a: int }", "map"), ("{ %s }", "map"), ("{ a: int, %s }", "map")]
+    jdocs = {"arr": ['[1]', '[]', '["x",1]', '[true]'], "map": ['{"a":1}', '{}']}
+    cdocs = {"arr": ['8101', '80', '82617801', '81f5'], "map": ['a1616101', 'a0']}
+    for occ in occs:
+        for z, rules in ZERO_WIDTH:
+            for ctx, kind in ctxs:
+                if tier != "thorough" and rng.random() > 0.34:
+                    continue
+                s = "a = " + ctx % ("%s %s" % (occ, z)) + "\n" + rules
+                jd = jdocs[kind] if tier == "thorough" else rng.sample(jdocs[kind], 2)
+                cd = cdocs[kind] if tier == "thorough" else rng.sample(cdocs[kind], 2)
+                for d in jd:
+                    out.append({"ep": "J", "schema": s, "doc": d, "fam": "hostile/bounded-zero-width"})
+                for d in cd:
+                    out.append({"ep": "C", "schema": s, "doc": bytes.fromhex(d), "fam": "hostile/bounded-zero-width"})
+    # the coordinator's witnesses of the seeded defect, always
+    for s, d, cb in (("a = [0*18446744073709551615 (), int]", "[1]", "8101"), ("a = [*9999999999999 (? tstr, ? bool), int]", "[1]", "8101"),
+                     ("a = [1*9999999999999 g]\ng = (? tstr)", "[]", "80"), ("a = {0*18446744073709551615 (), a: int}", '{"a":1}', "a1616101")):
+        out.append({"ep": "J", "schema": s, "doc": d, "fam": "hostile/bounded-zero-width"})
+        out.append({"ep": "C", "schema": s, "doc": bytes.fromhex(cb), "fam": "hostile/bounded-zero-width"})
+        out.append({"ep": "V", "schema": "a = [* r]\n" + s.replace("a = ", "r = ", 1), "doc": "1\n", "fam": "hostile/bounded-zero-width"})
+    return out
+
+
 def gen_hostile(rng, tier, n_cyc):
     """(c) cyclic / ill-typed / nonsensical schemas"""
     out = []
@@ -1084,6 +1122,7 @@ def run(tier, seed):
         k = (c["ep"], c["schema"])
         (rest if k in seen_se else first).append(c)
         seen_se.add(k)
+    bzw = gen_bounded_zero_width(rng, tier)
     alias_cases = gen_alias_family(rng, (200 if quick else 5000) * (3 if wide else 1))
     # ---- 3. run ---------------------------------------------------------------------------
     t_run = time.time()
@@ -1106,6 +1145,8 @@ def run(tier, seed):
     dbg = first[::3] if quick else first + rest
     dbg = [c for c in dbg if (c["ep"], c["schema"]) not in hung]
     execute(dbg, "debug", ms=hms)
+    execute(bzw, "release", ms=hms)
+    execute(bzw if not quick else bzw[::3], "debug", ms=hms)
     phase("hostile")
     # outside the bound: where does depth start to hurt (reported, not judged)
     by = {}
